@@ -14,7 +14,8 @@ RULE = ('molecules with aromatic or aromatisable rings: aromatic corpus molecule
         'writer, RDKit) and N-protonated / N-methylated variants built through the editing API; each in the given numbering and under the '
         're-description transformer; relations checked: kekule/thiele preserve connectivity, formula, charges, radicals, '
         'per-atom H; Kekule result has orders 1-3 only and no valence error; molecule and every enumerated Kekule form '
-        'aromatise to one form; second application changes nothing; result is the image under renumbering; non-trivial = '
+        'aromatise to one form; second application changes nothing; result is the image under renumbering; thiele() on Kekule input as written (also 18 '
+        'four-membered rings fused to arenes): totals kept, the text of the result read again has the same hydrogens, its Kekule form the same bond-order multiset; non-trivial = '
         'hetero-aromatic or fused or charged ring system, distinct by canonical string')
 ASSUMPTIONS = ['CachedMethods compatibility shim',
                'the enumerated-forms clause is not judged for ring systems with an unsaturated four-membered ring (recorded gap)',
@@ -51,6 +52,12 @@ CONFIG = {
                             'protonated.variants': 1000, 'protonated.variants-two-or-more': 200, 'raw-kekule-inputs.thiele-compared': 250, 'raw-aromatic-inputs.forms-checked': 8000,
                             'n-substituted.variants': 400}},
 }
+
+
+# four-membered rings fused to arenes, as Kekule forms: thiele() resets a four-ring only when all its atoms lie in aromatic rings
+FOUR_RINGS = ['C1=CC2=CC=CC=C12', 'C1=CC2=CC3=CC=CC=C3C=C12', 'C1=CC2=NC=CC=C12', 'C1=CC2=CN=CC=C12', 'C1=CC2=C(C=C1)C1=CC=CC=C21', 'C1CC2=CC=CC=C12',
+              'O=C1C(=O)C2=CC=CC=C12', 'CC1=C(C)C2=CC=CC=C12', 'C1=CC2=C1C=CC=C2', 'C1=CC2=CC=C3C=CC3=C12', 'C1=CC2=C1C=CS2', 'C1=CC2=C1C=CN2', 'C1=CC2=CC=CN=C12',
+              'C1=CC2=C(C=C1)C1=C2C=CC=C1', 'C1=CC2=C(C=C1)C1=C2C2=CC=CC=C2C=C1', 'FC1=C(F)C2=CC=CC=C12', 'C1=CC2=C1C1=CC=CC=C1C=C2', 'OC1=CC2=CC=CC=C12']
 
 
 def test_literals():
@@ -356,11 +363,29 @@ def raw_thiele(ctx, src):
     if t.check_valence():
         ctx.violation('thiele-result-has-valence-error', '%s as written -> %s atoms %s' % (src, t, t.check_valence()), w)
         return
+    # the text of the aromatic form, read again, is the same molecule: a hydrogen count left from before the conversion shows here
+    try:
+        again = smiles(str(t))
+        if not again.check_valence():
+            h2 = sum(a.implicit_hydrogens for _, a in again.atoms())
+            ctx.count('raw-kekule-inputs.aromatic-text-reread')
+            if h2 != h1 or dict(again.brutto) != dict(raw.brutto):
+                ctx.violation('thiele-changes-atom/hydrogens', '%s as written -> %s: total H %d, the text of the result read again has %d' % (src, t, h1, h2), w)
+                return
+    except Exception as e:
+        ctx.violation('aromatic-form-not-readable/%s' % type(e).__name__, '%s as written -> %s: %r' % (src, t, e), w)
+        return
     try:
         t.kekule()
     except Exception as e:
         ctx.violation('kekule-raises/%s%s' % (type(e).__name__, '/n-metalated-azole' if G.n_metalated_azole(t) else ''),
                       'aromatic form %s of %s as written: %r' % (t, src, e), w)
+        return
+    # a Kekule form of the result has as many double and triple bonds as the Kekule form it came from
+    orders = lambda x: sorted(b.order for *_, b in x.bonds())
+    if orders(t) != orders(raw):
+        ctx.violation('thiele-changes-bond-orders', '%s as written -> aromatic -> %s: bond orders %s, written %s'
+                      % (src, t, {o: orders(t).count(o) for o in set(orders(t))}, {o: orders(raw).count(o) for o in set(orders(raw))}), w)
 
 
 def raw_enumerate(ctx, src, cfg):
@@ -450,6 +475,7 @@ def worker(ctx):
     _random.Random(ctx.seed).shuffle(ids)
     # the small hand-made sets first: a time budget reached on a loaded machine then costs corpus molecules, not ring-system classes
     src = [('curated', s) for k, s in enumerate(HETEROCYCLES) if ctx.mine(k)]
+    src += [('four-ring', s) for k, s in enumerate(FOUR_RINGS) if ctx.mine(k)]
     src += [('test-literal', s) for k, s in enumerate(test_literals()) if ctx.mine(k)]
     src += [('special', s) for k, (s, _) in enumerate(G.special()) if ctx.mine(k)]
     src += [('corpus', c[i]) for k, i in enumerate(ids[:cfg['n_corpus']]) if ctx.mine(k)]
